@@ -98,11 +98,12 @@ claim("C08", "model_checking",
       "changed by the factor its own dimension vector dictates (tolerance 5e-5: the same algorithm on rescaled inputs).",
       REL_NOTE, REL_TECH, "DESIGN.md 9 C08")
 claim("C09", "model_checking",
-      "Mirror image and Galilean boost of every state of the Riemann lattice (ideal-gas solver), and exact rigid motions (rotations by Pythagorean angles, reflections, "
+      "Mirror image and Galilean boost of every state of the Riemann lattice (ideal-gas solver; the general-EOS solver on a seeded sample of the same lattice, its table translated with the boost), and exact rigid motions (rotations by Pythagorean angles, reflections, "
       "translations where the problem admits them) of Kenamond 1-3 and the DSD cylindrical expansion, enumerated by TLC; field parities and the additive velocity shift are "
       "owned by spec/Relations.tla.", REL_NOTE, REL_TECH, "DESIGN.md 9 C09")
 claim("C10", "model_checking",
-      "For Noh, Cog19, the Riemann solver, Mader (cell size scaled with t), EHEP region I and Sedov, TLC enumerates time ratios {2, 7/3, 1/10} per configuration and computes the "
+      "For Noh, Cog19, the Riemann solver, Mader (cell size scaled with t), EHEP region I, Sedov and Guderley (pairs at equal t_L / r^lambda, lambda read off the solver's own shock trajectory; "
+      "the specification needs only the length and time ratios of the pair), TLC enumerates time ratios {2, 7/3, 1/10} per configuration and computes the "
       "documented similarity exponents (Sedov: rational functions of geometry and omega) in exact rationals; the harness evaluates the solver at a point and at its similarity image "
       "and TLC checks field = field * ratio^exponent.", REL_NOTE, REL_TECH, "DESIGN.md 9 C10")
 
